@@ -46,6 +46,9 @@ enum Op {
     Query(u8),
     /// (setup only) the producer took the staged resume: `wait_for_reconnect(0)`
     Take,
+    /// (setup only) an earlier wait of the control's life, replayed with a deadline that has already passed:
+    /// `w:r` = wait_for_reconnect(0), `w:c<len>` = wait_for_credit(len, now)
+    Waited(Option<u64>),
 }
 
 impl Op {
@@ -60,6 +63,8 @@ impl Op {
             Op::SetPeer(p) => format!("peer:{}", p),
             Op::Query(k) => format!("q:{}", k),
             Op::Take => "take".to_string(),
+            Op::Waited(None) => "w:r".to_string(),
+            Op::Waited(Some(l)) => format!("w:c{}", l),
         }
     }
     fn parse(w: &str) -> Option<Op> {
@@ -74,6 +79,7 @@ impl Op {
             ("peer", 2) => Op::SetPeer(p[1].parse().ok()?),
             ("q", 2) => Op::Query(p[1].parse().ok()?),
             ("take", 1) => Op::Take,
+            ("w", 2) => if p[1] == "r" { Op::Waited(None) } else { Op::Waited(Some(p[1].strip_prefix('c')?.parse().ok()?)) },
             _ => return None,
         })
     }
@@ -174,7 +180,8 @@ fn apply(tc: &TransferControl, op: &Op) -> OpRes {
         },
         Op::Push(o, l) => { tc.push_replay(*o, *l, (o ^ l) % 3 == 0, vec![0u8; push_body_len(*o, *l)]); OpRes::Unit }
         Op::SetPeer(p) => { tc.set_peer(dummy_peer(*p)); OpRes::Unit }
-        Op::Take => { let _ = tc.wait_for_reconnect(Duration::ZERO); OpRes::Unit }
+        Op::Take | Op::Waited(None) => { let _ = tc.wait_for_reconnect(Duration::ZERO); OpRes::Unit }
+        Op::Waited(Some(len)) => { let _ = tc.wait_for_credit(*len, Instant::now()); OpRes::Unit }
         Op::Query(k) => {
             match k % 7 {
                 0 => { let _ = tc.offsets(); }
@@ -674,7 +681,7 @@ fn gen_case(rng: &mut Rng, tmo: bool) -> Case {
         } else {
             match rng.below(5) {
                 0 => { reason += 1; Op::Cancel(reason) }
-                1 => Op::Adv(other_file(rng, w.file)),
+                1 => Op::Adv(if rng.chance(1, 3) { w.file } else { other_file(rng, w.file) }),
                 2 => Op::Res(w.file, w.sent),
                 _ => Op::Ack(w.file, if rng.chance(1, 2) { w.sent } else { w.sent.saturating_add(w.len).saturating_sub(w.window).min(w.sent) }),
             }
@@ -937,7 +944,16 @@ fn run_multi(out: &mut Out, c: &MultiCase, idx: u64) {
         Kind::Reconnect => cancelled,
     }).collect();
     let n_reconnect = c.kinds.iter().filter(|k| **k == Kind::Reconnect).count();
-    let need_one_resume = !cancelled && pending.is_some() && n_reconnect > 0;
+    // the same from the history of calls alone (one signaller: the order is known)
+    let mut spec = Spec::new(c.window);
+    for op in c.setup.iter().chain(c.ops.iter()) { spec.apply(op); }
+    let must_obs = must.clone();
+    let mut must = must;
+    for i in 0..n {
+        let by_history = match &c.kinds[i] { Kind::Credit(_) => !spec.acceptable(&c.kinds[i]).is_empty(), Kind::Reconnect => spec.cancelled.is_some() };
+        if by_history && !must.contains(&i) { must.push(i); out.count("multi.history_vs_getters_disagree"); }
+    }
+    let need_one_resume = n_reconnect > 0 && ((!cancelled && pending.is_some()) || (spec.cancelled.is_none() && spec.pending.is_some()));
     let mut got: Vec<Option<Got>> = vec![None; n];
     let satisfied = |got: &Vec<Option<Got>>| must.iter().all(|&i| got[i].is_some())
         && (!need_one_resume || (0..n).any(|i| c.kinds[i] == Kind::Reconnect && got[i].is_some()));
@@ -989,7 +1005,7 @@ fn run_multi(out: &mut Out, c: &MultiCase, idx: u64) {
     out.count(&format!("multi.waiters.{}", n));
     out.add("multi.returned_before_cleanup", before_cleanup.iter().flatten().count() as u64);
     let obs = format!("{} must={} cancelled={} pending={} fin={}", idx,
-        if must.is_empty() { "-".to_string() } else { must.iter().map(|i| i.to_string()).collect::<Vec<_>>().join(",") },
+        if must_obs.is_empty() { "-".to_string() } else { must_obs.iter().map(|i| i.to_string()).collect::<Vec<_>>().join(",") },
         if cancelled { 1 } else { 0 }, if pending.is_some() { 1 } else { 0 }, fin);
     out.case(&line, &obs, !must.is_empty() || need_one_resume);
 }
@@ -1211,7 +1227,9 @@ impl Spec {
                 if *o > self.acked && *o <= self.sent { self.acked = *o }
             },
             Op::Push(o, l) => self.ring.push((*o, *l)),
-            Op::Take => self.pending = None,
+            // cancel is tested before the staged resume: a cancelled control keeps it
+            Op::Take | Op::Waited(None) => if self.cancelled.is_none() { self.pending = None },
+            Op::Waited(Some(_)) => {}
             Op::SetPeer(_) | Op::Query(_) => {}
         }
     }
@@ -1225,19 +1243,22 @@ impl Spec {
 // later wait must behave as on a fresh control in the same abstract state (logged as `sq` lines whose
 // setup is the whole history, so the model judges exactly that)
 // ------------------------------------------------------------------------------------------
-fn run_life(seed: u64) -> SqResult {
+fn run_life(seed: u64, fixed: Option<(u64, Vec<Op>, Kind, Option<Op>)>) -> SqResult {
     let mut rng = Rng::new(seed);
-    let w = world(&mut rng);
+    let mut w = world(&mut rng);
+    if let Some((window, setup, _, _)) = &fixed { w.window = *window; w.setup = setup.clone(); }
     let mut hist: Vec<Op> = w.setup.clone();
     let tc = make_control(w.window, &hist);
     let mut spec = Spec::new(w.window);
     for op in &hist { apply(&tc, op); spec.apply(op); }
     let mut res = SqResult { kind: Kind::Reconnect, lines: vec![], fails: vec![] };
     let mut reason = 0u64;
-    let rounds = rng.range(4, 6);
+    let rounds = if fixed.is_some() { 1 } else { rng.range(4, 8) };
+    let mut prev_kind: Option<Kind> = None;   // a producer often asks again for the same chunk
+    let mut seen_lens: Vec<u64> = Vec::new();
     for round in 0..rounds {
         // something happens between two waits
-        for _ in 0..rng.below(3) {
+        for _ in 0..(if fixed.is_some() { 0 } else { rng.below(3) }) {
             let op = match rng.below(6) {
                 0 => Op::Sent(spec.sent.saturating_add(rng.range(1, 5) * w.scale)),
                 1 => Op::Ack(spec.file, spec.acked.saturating_add(rng.below(3))),
@@ -1248,10 +1269,14 @@ fn run_life(seed: u64) -> SqResult {
             };
             apply(&tc, &op); spec.apply(&op); hist.push(op);
         }
-        let kind = if rng.chance(1, 2) { Kind::Reconnect } else {
+        let kind = if prev_kind.is_some() && rng.chance(2, 5) { prev_kind.clone().unwrap() } else if rng.chance(1, 2) { Kind::Reconnect } else {
             let inf = spec.sent.saturating_sub(spec.acked);
-            Kind::Credit(*rng.pick(&[0u64, 1, w.len, spec.window, spec.window.saturating_sub(inf).saturating_add(1), u64::MAX]))
+            if !seen_lens.is_empty() && rng.chance(1, 2) { Kind::Credit(*rng.pick(&seen_lens)) }   // the same chunk again, later in life
+            else { Kind::Credit(*rng.pick(&[0u64, 1, w.len, spec.window, spec.window.saturating_sub(inf).saturating_add(1), u64::MAX])) }
         };
+        let kind = if let Some((_, _, k, _)) = &fixed { k.clone() } else { kind };
+        if let Kind::Credit(l) = &kind { if !seen_lens.contains(l) { seen_lens.push(*l); } }
+        prev_kind = Some(kind.clone());
         let fam = match kind { Kind::Credit(_) => "wake.credit", Kind::Reconnect => "wake.reconnect" };
         let (k, len) = match &kind { Kind::Credit(l) => ("credit", *l), Kind::Reconnect => ("reconnect", 0) };
         let at_entry = spec.acceptable(&kind);
@@ -1260,10 +1285,11 @@ fn run_life(seed: u64) -> SqResult {
             Some(match (&kind, rng.below(4)) {
                 (_, 0) => { reason += 1; Op::Cancel(reason) }
                 (Kind::Reconnect, _) => Op::Res(spec.file, spec.ring.last().map(|l| l.0 + l.1).unwrap_or(0)),
-                (Kind::Credit(_), 1) => Op::Adv(other_file(&mut rng, spec.file)),
+                (Kind::Credit(_), 1) => Op::Adv(if rng.chance(1, 3) { spec.file } else { other_file(&mut rng, spec.file) }),
                 (Kind::Credit(_), _) => Op::Ack(spec.file, spec.sent),
             })
         };
+        let enabling = if let Some((_, _, _, e)) = &fixed { if at_entry.is_empty() { e.clone() } else { None } } else { enabling };
         let d = if enabling.is_some() { Duration::from_millis(1500) } else { Duration::from_millis(2 + rng.below(14)) };
         let (tx, rx) = mpsc::channel::<(Got, Instant, Instant)>();
         let waiter = {
@@ -1333,7 +1359,10 @@ fn run_life(seed: u64) -> SqResult {
         res.lines.push((line, format!("IDX {} {}", got.show(), fin)));
         if r.is_none() { break; }
         if let Some(op) = enabling { hist.push(op); }
-        if let Got::Resume(_) = got { spec.apply(&Op::Take); hist.push(Op::Take); }
+        let wop = Op::Waited(match &kind { Kind::Credit(l) => Some(*l), Kind::Reconnect => None });
+        // the spec consumes the resume only if this wait really returned it (it may have timed out first)
+        if let Got::Resume(_) = got { spec.apply(&wop); hist.push(wop); }
+        else if !matches!(kind, Kind::Reconnect) || spec.pending.is_none() || spec.cancelled.is_some() { hist.push(wop); }
     }
     res
 }
@@ -1357,7 +1386,7 @@ fn race_round(rng: &mut Rng, i: u64) -> RaceRound {
     let enabling = if reconnect {
         if rng.chance(1, 2) { Op::Res(w.file, *rng.pick(&covered)) } else { Op::Cancel(rng.range(1, 9)) }
     } else {
-        match rng.below(4) { 0 => Op::Cancel(rng.range(1, 9)), 1 => Op::Adv(other_file(rng, w.file)), 2 => Op::Res(w.file, w.sent),
+        match rng.below(4) { 0 => Op::Cancel(rng.range(1, 9)), 1 => Op::Adv(if rng.chance(1, 3) { w.file } else { other_file(rng, w.file) }), 2 => Op::Res(w.file, w.sent),
             // the smallest sufficient ack (in-flight lands exactly on window - len, or on 0) or everything
             _ => Op::Ack(w.file, if rng.chance(1, 2) { w.sent } else { w.sent.saturating_add(w.len).saturating_sub(w.window).min(w.sent) }) }
     };
@@ -1574,11 +1603,19 @@ fn main() {
                     continue;
                 }
                 if l.starts_with("sq ") {
-                    for _ in 0..10 {
+                    for i in 0..10 {
                         if out.oracle_failures >= MAX_FAILURES { break; }
                         let enabling = c.threads.iter().flatten().next().cloned();
-                        let r = run_sq(SqCase { kind: c.kind.clone(), window: c.window, setup: c.setup.clone(), enabling, n_timeouts: 1 + (rng.below(2) as u32) }, rng.next());
+                        // the recorded wait on a control with the recorded history (earlier waits included, `w:*`) ...
+                        let r = run_life(rng.next(), Some((c.window, c.setup.clone(), c.kind.clone(), enabling.clone())));
                         log_sq(&mut out, r, &mut idx);
+                        // ... and, when the history says the wait starts with its condition false, also preceded by waits that time out
+                        let mut spec = Spec::new(c.window);
+                        for op in &c.setup { spec.apply(op); }
+                        if i % 2 == 0 && spec.acceptable(&c.kind).is_empty() {
+                            let r = run_sq(SqCase { kind: c.kind.clone(), window: c.window, setup: c.setup.clone(), enabling, n_timeouts: 1 + (rng.below(2) as u32) }, rng.next());
+                            log_sq(&mut out, r, &mut idx);
+                        }
                     }
                     continue;
                 }
@@ -1608,8 +1645,8 @@ fn main() {
             let seed = rng.next();
             std::thread::spawn(move || run_sq(c, seed))
         }).collect();
-        let n_life = if args.thorough() { 160 } else { 24 };
-        let life: Vec<_> = (0..n_life).map(|_| { let seed = rng.next(); std::thread::spawn(move || run_life(seed)) }).collect();
+        let n_life = if args.thorough() { 400 } else { 64 };
+        let life: Vec<_> = (0..n_life).map(|_| { let seed = rng.next(); std::thread::spawn(move || run_life(seed, None)) }).collect();
         let wdog = { let seed = rng.next(); std::thread::spawn(move || run_watchdog_case(seed)) };
         // entry races
         let (n_race, race_budget) = if args.thorough() { (400000, Duration::from_secs(150)) } else { (30000, Duration::from_secs(8)) };
